@@ -306,6 +306,21 @@ def scalarise_small_lists(fnode):
     return f
 
 
+class _FoldConstFormat(ast.NodeTransformer):
+    """'vertex {} missing'.format('u') -> 'vertex u missing': a template applied to literal str/int arguments is the literal string"""
+
+    def visit_Call(self, n):
+        self.generic_visit(n)
+        if isinstance(n.func, ast.Attribute) and n.func.attr == "format" and isinstance(n.func.value, ast.Constant) and \
+                isinstance(n.func.value.value, str) and n.args and not n.keywords and \
+                all(isinstance(a, ast.Constant) and type(a.value) in (str, int) for a in n.args):
+            try:
+                return ast.copy_location(ast.Constant(value=n.func.value.value.format(*[a.value for a in n.args])), n)
+            except Exception:
+                return n
+        return n
+
+
 class Normaliser:
     def __init__(self, fnode, module_helpers=None):
         fnode = scalarise_small_lists(fnode)
@@ -445,7 +460,7 @@ class Normaliser:
 
     def _classify_helpers(self):
         """local functions that are only called by name with positional arguments"""
-        self.stmt_helpers, self.expr_helpers, self.gen_helpers = {}, {}, {}
+        self.stmt_helpers, self.expr_helpers, self.gen_helpers, self.tail_helpers = {}, {}, {}, {}
         f = self.f
         for name, d in self.local_defs.items():
             if d is None or d.decorator_list or d.args.vararg or d.args.kwarg or d.args.defaults or d.args.kwonlyargs or d.args.posonlyargs:
@@ -501,6 +516,11 @@ class Normaliser:
                 self.expr_helpers[name] = ([a.arg for a in d.args.args], _Sub(loc).visit(copy.deepcopy(rets[0].value)))
             elif len(rets) == 1 and body and body[-1] is rets[0] and rets[0].value is not None:
                 self.stmt_helpers[name] = (d, body)       # statements then `return expr`: usable as `x = h(..)` / `return h(..)`
+            else:
+                # returns of any shape: usable only where the caller returns the helper's result, `return h(..)`
+                tails = {id(x.value) for x in ast.walk(f) if isinstance(x, ast.Return) and x.value is not None}
+                if all(id(c) in tails for c in calls):
+                    self.tail_helpers[name] = (d, body)
 
     # ------------------------------------------------------------------ naming
     def fresh(self, prefix="v"):
@@ -518,6 +538,7 @@ class Normaliser:
             if ast.dump(e) == before:
                 break
         e = _Sub({k: v for k, v in env.items() if isinstance(v, str)}).visit(e)
+        e = _FoldConstFormat().visit(e)
         e = self._comps(e)
         e = self._int_contexts(e)
         return self._text(e)
@@ -785,7 +806,7 @@ class Normaliser:
             # trailing no-op exits
             if last and at_end and ((isinstance(s, ast.Continue) and in_loop) or (isinstance(s, ast.Return) and s.value is None and not in_loop)):
                 break
-            if isinstance(s, ast.FunctionDef) and (s.name in self.stmt_helpers or s.name in self.expr_helpers or s.name in self.gen_helpers):
+            if isinstance(s, ast.FunctionDef) and (s.name in self.stmt_helpers or s.name in self.expr_helpers or s.name in self.gen_helpers or s.name in self.tail_helpers):
                 i += 1
                 continue
             # x = [] ; for ..: x.append(e)      ==      x = [e for ..]
@@ -1098,7 +1119,7 @@ class Normaliser:
 
     def _inline_stmt(self, s):
         """`h(args)` / `x = h(args)` / `return h(args)` for a local helper h -> its statements"""
-        call, kind = None, None
+        call, kind, tail = None, None, False
         if isinstance(s, ast.Expr) and isinstance(s.value, ast.Call):
             call, kind = s.value, "expr"
         elif isinstance(s, ast.Assign) and len(s.targets) == 1 and isinstance(s.value, ast.Call):
@@ -1109,12 +1130,16 @@ class Normaliser:
                 isinstance(s.value.value.func, ast.Name) and s.value.value.func.id in self.gen_helpers:
             call, kind = s.value.value, "expr"
             d, body = self.gen_helpers[call.func.id]
+        elif call is not None and kind == "return" and isinstance(call.func, ast.Name) and call.func.id in self.tail_helpers and \
+                not call.keywords and len(call.args) == len(self.tail_helpers[call.func.id][0].args.args):
+            d, body = self.tail_helpers[call.func.id]
+            tail = True
         elif call is None or not isinstance(call.func, ast.Name) or call.func.id not in self.stmt_helpers:
             return None
         else:
             d, body = self.stmt_helpers[call.func.id]
-        has_ret = bool(body) and isinstance(body[-1], ast.Return) and body[-1].value is not None
-        if kind in ("assign", "return") and not has_ret:
+        has_ret = not tail and bool(body) and isinstance(body[-1], ast.Return) and body[-1].value is not None
+        if kind in ("assign", "return") and not has_ret and not tail:
             return None
         params = [a.arg for a in d.args.args]
         pre, mapping = [], {}
@@ -1159,6 +1184,15 @@ class Normaliser:
                 new.append(ast.Assign(targets=s.targets, value=ret.value))
             else:
                 new.append(ast.Return(value=ret.value))
+        def leaves(stmts):
+            if not stmts:
+                return False
+            last = stmts[-1]
+            if isinstance(last, (ast.Return, ast.Raise)):
+                return True
+            return isinstance(last, ast.If) and leaves(last.body) and leaves(last.orelse)
+        if tail and not leaves(new):
+            new.append(ast.Return(value=None))
         for b in pre + new:
             ast.copy_location(b, s)
             ast.fix_missing_locations(b)
